@@ -399,11 +399,12 @@ impl<S3, NI> MultiLane<[u64; 2]> for u64x2_sse2<S3, NoS4, NI> {
 impl<S3, S4, NI> MultiLane<[u128; 1]> for u128x1_sse2<S3, S4, NI> {
     #[inline(always)]
     fn to_lanes(self) -> [u128; 1] {
-        unimplemented!()
+        let x: vec128_storage = self.into();
+        x.into()
     }
     #[inline(always)]
     fn from_lanes(xs: [u128; 1]) -> Self {
-        unimplemented!("{:?}", xs)
+        Self::new(unsafe { _mm_set_epi64x((xs[0] >> 64) as i64, xs[0] as i64) })
     }
 }
 
